@@ -288,6 +288,7 @@ class Emitter:
         s.fn_names = {}
         s.strid = 0
         s.ov_helpers = set()
+        s.guard_globals = set()
         s.mem_uses = set()
         s.fn_mem = {}
     # ---- C type names
@@ -663,6 +664,10 @@ class Emitter:
         return s.const_expr(p, ty)
 
     def emit_instr(s, f, lab, toks, body, decls, allocas, jump):
+        if s.guard_globals:
+            for tk in toks:
+                if tk.startswith('@') and unq(tk) in s.guard_globals:
+                    body.append('VRT_SHARED("%s");' % cident(unq(tk))); break
         p = P(toks)
         dst = None
         if p.peek(1) == '=':
@@ -719,11 +724,15 @@ class Emitter:
         if op == 'load':
             p.accept('volatile'); ty = parse_type(p); p.expect(','); pty = parse_type(p); a = s.operand(p, pty)
             if isinstance(ty, IntTy) and ty.bits not in (8, 16, 32, 64) and ty.bits != 1:
-                raise Unsupported('odd-width load')
+                if ty.bits % 8 != 0 or ty.bits > 64: raise Unsupported('odd-width load i%d' % ty.bits)
+                return setv(ty, '((%s)vrt_load_odd((const uint8_t*)%s, %d))' % (s.cty(ty), a, ty.bits // 8))
             if isinstance(ty, ArrTy): raise Unsupported('array-valued load')
             return setv(ty, '*%s' % a)
         if op == 'store':
             p.accept('volatile'); ty = parse_type(p); v = s.operand(p, ty); p.expect(','); pty = parse_type(p); a = s.operand(p, pty)
+            if isinstance(ty, IntTy) and ty.bits not in (1, 8, 16, 32, 64):
+                if ty.bits % 8 != 0 or ty.bits > 64: raise Unsupported('odd-width store i%d' % ty.bits)
+                body.append('vrt_store_odd((uint8_t*)%s, (uint64_t)%s, %d);' % (a, v, ty.bits // 8)); return
             body.append('*%s = %s;' % (a, v)); return
         if op == 'getelementptr':
             p.accept('inbounds'); bty = parse_type(p); p.expect(','); pty = parse_type(p); base = s.operand(p, pty)
@@ -774,8 +783,9 @@ class Emitter:
                 if t == 'align': p.next()
                 if t.startswith('dereferenceable'): p.expect('('); p.next(); p.expect(')')
             rty = parse_type(p)
+            # `call <fnty> @f(...)` spells the whole function type only for varargs callees; a pointer-to-function here
+            # is the RETURN type (a function returning a function pointer)
             if isinstance(rty, FuncTy): rty_ret = rty.ret
-            elif isinstance(rty, PtrTy) and isinstance(rty.to, FuncTy): rty_ret = rty.to.ret
             else: rty_ret = rty
             callee = p.next(); p.expect('(')
             args = []; atys = []
@@ -834,9 +844,10 @@ class Emitter:
 
 PRELUDE = '#include "gen_prelude.h"\n'
 
-def translate(text, keep=None, want_info=False):
+def translate(text, keep=None, want_info=False, guard_globals=()):
     m = parse_module(text)
     em = Emitter(m)
+    em.guard_globals = set(guard_globals)
     fbodies = []
     for name, f in m.funcs.items():
         em.mem_uses = set()
@@ -857,11 +868,11 @@ def translate(text, keep=None, want_info=False):
             glines.append('%s%s %s = %s;' % (q, em.cty(ty), cn, ini))
     # simulated threads: per-thread shadow copies of every thread_local global
     tls = [(name, ty) for name, (ty, init, const, t) in m.globals.items() if t and init is not None]
-    sw = ['/* ---- simulated-thread TLS switch ---- */', '#define VRT_NTHREADS 3', 'static uint32_t vrt_cur_thread = 0;', 'static uint8_t vrt_tls_init_done = 0;']
+    sw = ['/* ---- simulated threads: vrt_run_on(t, fn, arg) runs fn(arg) with the thread_local globals of simulated thread t ---- */',
+          '#define VRT_NTHREADS 3', 'static uint32_t vrt_cur_thread = 0;', 'static uint8_t vrt_tls_init_done = 0;']
     for name, ty in tls:
         sw.append('static %s SH_%s[VRT_NTHREADS];' % (em.cty(ty), cident(name)))
-    sw.append('void X_vrt_switch(uint32_t t) {')
-    sw.append('  __CPROVER_assume(t < VRT_NTHREADS);')
+    sw.append('static void vrt_tls_switch(uint32_t t) {')
     sw.append('  if (!vrt_tls_init_done) { vrt_tls_init_done = 1;')
     for name, ty in tls:
         sw.append('    for (int i = 0; i < VRT_NTHREADS; i++) SH_%s[i] = G_%s;' % (cident(name), cident(name)))
@@ -869,6 +880,11 @@ def translate(text, keep=None, want_info=False):
     for name, ty in tls:
         sw.append('  SH_%s[vrt_cur_thread] = G_%s; G_%s = SH_%s[t];' % (cident(name), cident(name), cident(name), cident(name)))
     sw.append('  vrt_cur_thread = t;')
+    sw.append('}')
+    sw.append('typedef void (*vrt_thread_fn)(uint8_t*);')
+    sw.append('void X_vrt_run_on(uint32_t t, vrt_thread_fn fn, uint8_t* arg) {')
+    sw.append('  VRT_ASSUME(t < VRT_NTHREADS);')
+    sw.append('  const uint32_t back = vrt_cur_thread; vrt_tls_switch(t); fn(arg); vrt_tls_switch(back);')
     sw.append('}')
     protos = ['/* ---- prototypes ---- */']
     for name, fty in m.decls.items():
@@ -891,7 +907,7 @@ def translate(text, keep=None, want_info=False):
             body = '%s r; %s w = (%s)(%s)a %s (%s)(%s)b; r.f0 = (%s)w; r.f1 = (w != (%s)(%s)(%s)w) ? 1 : 0; return r;' % (lit, SW, SW, S, o, SW, S, T, SW, S, T)
         ovh.append('static inline %s __%s_ov_%d_%s(%s a, %s b){ %s }' % (lit, op, bits, lit.split()[-1], T, T, body))
     types = types + ovh
-    out = [PRELUDE] + types + protos + glines + (sw if 'vrt_switch' in m.decls else [])
+    out = [PRELUDE] + types + protos + glines + (sw if 'vrt_run_on' in m.decls else [])
     for fb in fbodies: out.extend(fb)
     csrc = '\n'.join(out) + '\n'
     if not want_info: return csrc
